@@ -172,6 +172,11 @@ Proof. exact shipped_check_accepts. Qed.
 Theorem C10_rejects_except_known : forall d m,
   wf_doc d -> mutation false d m -> exists e, shipped_check (fst m) (snd m) = Reject e.
 Proof. exact shipped_check_rejects. Qed.
+(* the same in the form "not accepted"; the excluded class (mutation true but not mutation false) is exactly
+   known finding C10-any-typed-entries-unchecked, witnessed by C10_any_typed_entries_refuted *)
+Theorem C10_rejects_not_accepted : forall d m,
+  wf_doc d -> mutation false d m -> shipped_check (fst m) (snd m) <> Accept.
+Proof. exact shipped_check_not_accepted. Qed.
 Theorem C10_mutation_weaken : forall d m, mutation false d m -> mutation true d m.
 Proof. exact mutation_weaken. Qed.
 
@@ -238,3 +243,4 @@ Print Assumptions C10_example_checked.
 Print Assumptions C10_any_typed_entries_refuted.
 Print Assumptions C10_numtree_pinned_refuted.
 Print Assumptions C10_date_pinned_refuted.
+Print Assumptions C10_rejects_not_accepted.
